@@ -156,7 +156,27 @@ def corr_process(ctx, rng):
     ctx.cases += 1
 
 
+def corr_area_center(ctx, n):
+    """`_calculate_area` / `_calculate_center` (used for every patch) vs the model."""
+    common.import_repo()
+    from sparrowpy import geometry
+    from .. import geomgen
+    lines, impl = [], []
+    for _ in range(n):
+        pts, _ = geomgen.convex_polygon(ctx.rng)
+        a = geometry._calculate_area(pts[None, :, :].copy())[0]
+        c = geometry._calculate_center(pts.copy())
+        lines.append(' '.join(['polyinfo', str(len(pts)), common.fhexs(pts)]))
+        impl.append((a, c))
+    for (a, c), line in zip(impl, common.run_driver(lines)):
+        sec = [x.strip().split(' ') for x in line[3:].split('|')]
+        ctx.cmp.ulp('corr:_polygon_area', [a], [common.unhex(sec[0][0])], rtol=1e-12)
+        ctx.cmp.ulp('corr:_calculate_center', c, common.parse_floats(sec[1]), rtol=1e-12, atol=1e-13)
+    ctx.cases += 1
+
+
 def run(ctx):
+    corr_area_center(ctx, 30 if ctx.tier == 'quick' else 500)
     n = 25 if ctx.tier == 'quick' else 600
     lines, meta = [], []
     for k in range(n):
